@@ -301,7 +301,7 @@ package generator
 //@   propagates
 
 //@ func generator.convertTo(g; ctx, assignTo, sourceID, source, target, errPath)
-//@   props C10 C03
+//@   props C10 C03 C13
 //@   propagates
 //@   requires@C13 builder.GenInv(g) && builder.CallOK(ctx, sourceID, source, target) && builder.AssignOK(assignTo)
 //@   ensures@C13 builder.GenInv(g)
